@@ -114,6 +114,20 @@ def evidence(unit, fn, stmt, R, params, ev, bad):
                 for n in walk(d['init'], lambdas=False):
                     call_evidence(unit, fn, n, R, params, ev, bad)
         return
+    if k == 'ForStmt' and is_node(stmt.get('init')) and stmt['init']['k'] == 'DeclStmt' and is_node(stmt.get('body')):
+        # iterator form of the same loop: for (auto it = X.begin(); it != X.end(); ++it) ... *it ...
+        for d0 in stmt['init'].get('decls', []):
+            i0 = strip(d0.get('init')) if is_node(d0.get('init')) else None
+            if i0 is not None and i0['k'] == 'CXXMemberCallExpr' and method_name(i0) in ('begin', 'cbegin'):
+                X = i0.get('obj')
+                sx = strip(X)
+                if sx is not None and sx['k'] == 'DeclRefExpr' and sx.get('dk') == 'local':
+                    from .prov import local_sources
+                    srcs = local_sources(fn, sx.get('d'))
+                    if len(srcs) == 1:
+                        X = srcs[0]
+                evidence(unit, fn, {'k': 'CXXForRangeStmt', 'range': X, 'var': {'d': d0['d']}, 'body': stmt['body'], '_real': stmt}, R, params, ev, bad)
+                return
     if k == 'CXXForRangeStmt':
         rp = root_path(stmt.get('range'))
         op = operand(rp, params) if rp else None
@@ -134,7 +148,7 @@ def evidence(unit, fn, stmt, R, params, ev, bad):
                 # the whole component: in a union every final state / rule of the operand has to arrive
                 cond_ = False
                 pp = n.get('_p')
-                while pp is not None and pp is not stmt:
+                while pp is not None and pp is not stmt and pp is not stmt.get('_real'):
                     if pp['k'] in ('IfStmt', 'ConditionalOperator', 'SwitchStmt'):
                         cond_ = True
                     pp = pp.get('_p')
